@@ -117,7 +117,19 @@ func (m *Mast) Delete(ctx context.Context, key, value interface{}) error {
 		return fmt.Errorf("savePathForRoot: %w", err)
 	}
 	m.size--
-	for m.size < m.shrinkBelowSize && m.height > 0 {
+	for m.height > 0 {
+		if m.size > m.shrinkBelowSize {
+			// the size still allows this height; it is only too tall
+			// if the last key of the top layer is gone
+			var root *mastNode
+			root, err = m.load(ctx, m.root)
+			if err != nil {
+				return fmt.Errorf("load root: %w", err)
+			}
+			if len(root.Key) > 0 {
+				break
+			}
+		}
 		err = m.shrink(ctx)
 		if err != nil {
 			return fmt.Errorf("shrink: %w", err)
